@@ -38,7 +38,7 @@ UOD_NAMES = ("Short", "Long", "Long2", "Other", "Fail", "Set1", "SetPlain", "Dri
 
 
 def plan(tier, seed):
-    n = 128 if tier == "quick" else 1000
+    n = 128 if tier == "quick" else 3000
     shards = 16 if tier == "quick" else 50
     return [{"seed": seed * 1000003 + i, "n": max(1, n // shards), "max_depth": 3 if tier == "quick" else 4}
             for i in range(shards)]
